@@ -1,4 +1,5 @@
 import Plotink.Proofs.C09Loop
+import Plotink.Proofs.C09Gen
 
 /-! # C09 — vertex reduction keeps the path within tolerance of the original
 
@@ -110,5 +111,54 @@ end
 /-- non-vacuity: the hypotheses are satisfiable and the model computes something non-trivial -/
 example : supersample (fun p : Pt => p) [(0,0), (1,0), (2,0), (3,5)] 1 = some [(0,0), (2,0), (3,5)] := by
   decide +kernel
+
+/-! ## The same statements about the SOURCE-REGENERATED code
+
+`Gen.points_in_tolerance` is regenerated from `plotink/plot_utils.py` by the translator on every run
+(`lean/Plotink/Gen/points_in_tolerance.lean`; the `for` loop is a recursion over the item list, so no fuel). The
+theorems below are about that definition in exact arithmetic (`Rounding.exact`). Coordinates and tolerance are Python
+`int`s or `float`s in any mixture (`Py.IsNum v q`); `C09.EncPts Py.IsNum v pts` says that `v` is a list of 2-item
+lists of such numbers. Proofs: `Proofs/C09Gen.lean` (one generated loop pass = `C09.ptOk`, induction on the list). -/
+
+/-- **bridge** `Gen.points_in_tolerance = C09.pointsInTol` (`AssertionError` ↦ `err`), `int`/`float` mixtures -/
+theorem C09_gen_bridge (amb : Nat) (pts : List Pt) (tol : Rat) (vp vt : Py.Val)
+    (hp : EncPts Py.IsNum vp pts) (ht : Py.IsNum vt tol) :
+    Gen.points_in_tolerance Rounding.exact amb vp vt = encOptBool (pointsInTol pts tol) :=
+  points_in_tolerance_bridge Py.enc_isNum amb pts tol vp vt hp ht
+
+/-- the bridge for the all-`float` encoding, as an equation between functions of the rationals -/
+theorem C09_gen_bridge_flt (amb : Nat) (pts : List Pt) (tol : Rat) :
+    Gen.points_in_tolerance Rounding.exact amb (encPts pts) (.flt tol) = encOptBool (pointsInTol pts tol) :=
+  points_in_tolerance_bridge Py.enc_isFlt amb pts tol _ _ (encPts_isFlt pts) rfl
+
+/-- `C09_pred_iff` for the regenerated code: with at least 3 points it returns a boolean, true exactly when every
+interior point is at squared distance `< tol²` from the segment first–last, i.e. exactly when the reference maximum
+(squared) is `< tol²`; for `tol ≥ 0`, "maximum distance `< tol`". -/
+theorem C09_gen_pred_iff (amb : Nat) (pts : List Pt) (tol : Rat) (vp vt : Py.Val)
+    (hp : EncPts Py.IsNum vp pts) (ht : Py.IsNum vt tol) (h : 3 ≤ pts.length) :
+    ∃ ok m a b, Gen.points_in_tolerance Rounding.exact amb vp vt = .bool_ ok ∧ maxDistSq pts = some m ∧
+      pts.head? = some a ∧ pts.getLast? = some b ∧
+      (ok = true ↔ ∀ p ∈ interior pts, distSq a b p < tol * tol) ∧
+      (ok = true ↔ m < tol * tol) ∧
+      (0 ≤ tol → ∀ d : Rat, 0 ≤ d → d * d = m → (ok = true ↔ d < tol)) := by
+  obtain ⟨ok, m, a, b, hpit, hmax, hh, hl, h1, h2, h3⟩ := C09_pred_iff pts tol h
+  refine ⟨ok, m, a, b, ?_, hmax, hh, hl, h1, h2, h3⟩
+  rw [C09_gen_bridge amb pts tol vp vt hp ht, hpit]
+  rfl
+
+/-- fewer than 3 points: the regenerated code fails its `assert` (`err`) -/
+theorem C09_gen_pred_short (amb : Nat) (pts : List Pt) (tol : Rat) (vp vt : Py.Val)
+    (hp : EncPts Py.IsNum vp pts) (ht : Py.IsNum vt tol) (h : pts.length < 3) :
+    Gen.points_in_tolerance Rounding.exact amb vp vt = .err := by
+  rw [C09_gen_bridge amb pts tol vp vt hp ht, (C09_pred_short pts tol h).1]
+  rfl
+
+/-- non-vacuity: a concrete list with `int` and `float` coordinates meets the hypotheses -/
+example : EncPts Py.IsNum (.tup [.tup [.int 0, .int 0], .tup [.flt (1/2), .int 1], .tup [.int 2, .flt 0]])
+      [(0, 0), (1/2, 1), (2, 0)] ∧ Py.IsNum (.int 2) 2 ∧ 3 ≤ [((0:Rat), (0:Rat)), (1/2, 1), (2, 0)].length :=
+  ⟨⟨_, rfl, List.Forall₂.cons ⟨_, _, rfl, Or.inr ⟨0, rfl, by norm_num⟩, Or.inr ⟨0, rfl, by norm_num⟩⟩
+      (List.Forall₂.cons ⟨_, _, rfl, Or.inl rfl, Or.inr ⟨1, rfl, by norm_num⟩⟩
+        (List.Forall₂.cons ⟨_, _, rfl, Or.inr ⟨2, rfl, by norm_num⟩, Or.inl rfl⟩ List.Forall₂.nil))⟩,
+    Or.inr ⟨2, rfl, by norm_num⟩, by decide⟩
 
 end Plotink
